@@ -54,14 +54,14 @@ def cases(ctx):
         total = 1 if n <= 2 else n ** (n - 2)
         for b in range((total + BLOCK - 1) // BLOCK):
             yield {'kind': 'enum', 'n': n, 'block': b}
-    nrand = 60 if ctx.tier == 'quick' else 3000
+    nrand = 60 if ctx.tier == 'quick' else 40000
     for b in range(nrand):
         yield {'kind': 'rand', 'batch': b}
-    for b in range(12 if ctx.tier == 'quick' else 400):
+    for b in range(12 if ctx.tier == 'quick' else 4000):
         yield {'kind': 'displ', 'batch': b}
-    for b in range(6 if ctx.tier == 'quick' else 200):
+    for b in range(6 if ctx.tier == 'quick' else 2000):
         yield {'kind': 'emb', 'batch': b}
-    for b in range(40 if ctx.tier == 'quick' else 1500):
+    for b in range(40 if ctx.tier == 'quick' else 20000):
         yield {'kind': 'seq', 'batch': b}
 
 
